@@ -10,7 +10,7 @@
    ten evaluation functions (Lemmas_ConstLogic.v, Lemmas_ConstEval.v, Lemmas_ConstCase_*.v, Lemmas_ConstThm.v): it fails to go
    through if any write site loses its guard.  Also: an attempt on a constant cell through the assignment store sequence is an
    error with the state unchanged, and the flag itself is permanent. *)
-From PE2 Require Import Eval Run Lemmas_Store Lemmas_Out Lemmas_DeepCopy Lemmas_ConstLogic Lemmas_ConstThm.
+From PE2 Require Import Eval Run Lemmas_Store Lemmas_Out Lemmas_DeepCopy Lemmas_ConstLogic Lemmas_ConstThm Lemmas_ConstStates.
 
 Theorem C08_assignment_to_constant_no_effect : forall t c id v s cl,
   get_cell id s = (Ok cl, s) -> well_tagged v -> c_const cl = true ->
@@ -67,3 +67,24 @@ Print Assumptions C08_constant_statement_creates_a_protected_cell.
 (* non-vacuity: the global context of the initial state is an ordinary context *)
 Example C08_global_context_is_ordinary : forall stdin fs rnd, plain_ctx (init_state stdin fs rnd) root_id.
 Proof. intros. exists global_ctx. split; [unfold init_state; cbn [s_ctxs]; apply nm_get_put_same|reflexivity]. Qed.
+
+(* ---- the attempts themselves, statement by statement, in every state: each is a runtime error and the WHOLE state -- the constant
+   included -- is exactly as it was (the value expression / target resolution being any that does not touch the state) ---- *)
+Theorem C08_constant_under_an_existing_name_is_an_error : forall ped repl lim fuel t v id c s r i,
+  ev_eval (evs_at ped repl lim fuel) v c s = (Ok r, s) -> lookup_var c (tval id) false s = (Ok (Some i), s) ->
+  exists f, ev_eval (evs_at ped repl lim (S fuel)) (NConst t v id) c s = (Fail f, s).
+Proof. exact constant_under_an_existing_name_is_an_error. Qed.
+Print Assumptions C08_constant_under_an_existing_name_is_an_error.
+
+Theorem C08_input_into_a_constant_is_an_error : forall ped repl lim fuel t r c s id cl,
+  ev_resolve (evs_at ped repl lim fuel) r c s = (Ok (HVar id), s) -> nm_get id (s_cells s) = Some cl -> c_const cl = true ->
+  exists f, ev_eval (evs_at ped repl lim (S fuel)) (NInput t r) c s = (Fail f, s).
+Proof. exact input_into_a_constant_is_an_error. Qed.
+Print Assumptions C08_input_into_a_constant_is_an_error.
+
+Theorem C08_readfile_into_a_constant_is_an_error : forall ped repl lim fuel t name id c s fh vid cl,
+  find_file (tval name) (s_files s) = Some fh -> of_mode fh = FRead ->
+  lookup_var c (tval id) true s = (Ok (Some vid), s) -> nm_get vid (s_cells s) = Some cl -> dk (c_type cl) = KStr -> c_const cl = true ->
+  exists f, ev_eval (evs_at ped repl lim (S (S fuel))) (NReadFile t (NStr name) id) c s = (Fail f, s).
+Proof. exact readfile_into_a_constant_is_an_error. Qed.
+Print Assumptions C08_readfile_into_a_constant_is_an_error.
